@@ -507,13 +507,17 @@ var divisionJustified = map[string]string{
 // divisionVerdict is zeroDivisorReachable, with the guard of an unexported helper looked for in its callers: a helper
 // dividing by (something built on) a parameter is judged from each static call site, the helper followed into.
 func divisionVerdict(p *core.Program, s divSite) (bool, string, int) {
+	return divisionVerdictFrom(p, s, 0)
+}
+
+func divisionVerdictFrom(p *core.Program, s divSite, depth int) (bool, string, int) {
 	reach, why, paths := zeroDivisorReachable(p, s)
 	fn := s.fn
-	if reach && fn.Obj != nil && !fn.Obj.Exported() {
+	if reach && fn.Obj != nil && !fn.Obj.Exported() && depth < 3 {
 		if callers := staticCallers(p, fn); len(callers) > 0 {
 			reach = false
 			for _, cs := range callers {
-				r, w, pp := zeroDivisorReachable(p, divSite{fn: cs.fn, expr: s.expr, lit: cs.lit})
+				r, w, pp := divisionVerdictFrom(p, divSite{fn: cs.fn, expr: s.expr, lit: cs.lit}, depth+1)
 				paths += pp
 				if r {
 					reach, why = true, "called from "+p.FName(cs.fn)+": "+w
